@@ -23,8 +23,8 @@ def rules_table():
 def seeds_table():
     ct = json.load(open(os.path.join(V, "tools", "catch_table.json")))
     out = ["| seeded change | round | what it breaks (site) | reported by |", "|---|---|---|---|"]
-    caught = {1: 0, 2: 0, 3: 0, 4: 0}
-    total = {1: 0, 2: 0, 3: 0, 4: 0}
+    caught = {1: 0, 2: 0, 3: 0, 4: 0, 5: 0}
+    total = {1: 0, 2: 0, 3: 0, 4: 0, 5: 0}
     for d in sorted(glob.glob(os.path.join(V, "seeded", "C*"))):
         sid = os.path.basename(d)
         m = json.load(open(os.path.join(d, "meta.json")))
@@ -39,8 +39,7 @@ def seeds_table():
         fn = ", ".join((m.get("functions") or [])[:2])
         out.append("| %s | %d | %s (%s) | %s |" % (sid, rnd, what, fn, by))
     out.append("")
-    out.append("Round 1: %d of %d reported.  Round 2: %d of %d reported.  Round 3: %d of %d reported.  Round 4: %d of %d reported." % (
-        caught[1], total[1], caught[2], total[2], caught[3], total[3], caught[4], total[4]))
+    out.append("  ".join("Round %d: %d of %d reported." % (r, caught[r], total[r]) for r in sorted(total)))
     return "\n".join(out)
 
 
